@@ -2208,6 +2208,74 @@ def corr_extra(ctx, sf, fx):
         reqs.append(dict(op="hw.compatible", len=L, loops=[[fr(offs[i]), DELAYS[i], [fr(x) for x in phis[i]]] for i in range(3)]))
         pend.append(("tdm.utils.make_phases_compatible", case, impl))
         fn_check(ctx, sf, "compat", case)
+    # ---- GBS.compile: options of the combined Fock measurement (modes in any order, several commands, partial options)
+    from strawberryfields.compilers.gbs import GBS
+    for _ in range(ctx.n(60, 500)):
+        n = rng.randint(2, 6)
+        modes_ = list(range(n))
+        rng.shuffle(modes_)
+        k = rng.randint(1, n)
+        modes_ = modes_[:k] if rng.random() < 0.3 else modes_
+        cuts = sorted(rng.sample(range(1, len(modes_)), min(rng.randint(0, 2), len(modes_) - 1))) if len(modes_) > 1 else []
+        parts = [modes_[a:b] for a, b in zip([0] + cuts, cuts + [len(modes_)])]
+        kind = rng.choice(["none", "select-all", "select-some", "dark-all", "dark-some", "both"])
+        B = []
+        for pi_, regs in enumerate(parts):
+            d = dict(regs=regs, select=None, dark=None)
+            if kind == "select-all" or (kind in ("select-some", "both") and pi_ == 0):
+                d["select"] = [rng.randint(0, 3) for _ in regs]
+            if kind == "dark-all" or (kind == "dark-some" and rng.random() < 0.6) or (kind == "both" and pi_ == len(parts) - 1):
+                d["dark"] = [rng.choice([0.0, 0.125, 0.5]) for _ in regs]
+            if d["select"] is not None and d["dark"] is not None:
+                d["dark"] = None
+            B.append(d)
+        prog = sf.Program(n)
+        with prog.context as q:
+            ops.Sgate(0.3) | q[0]
+            for d in B:
+                ops.MeasureFock(select=d["select"], dark_counts=d["dark"]) | tuple(q[r] for r in d["regs"])
+        try:
+            out = GBS().compile(list(prog.circuit), prog.register)
+            last = out[-1]
+            impl = dict(modes=[r.ind for r in last.reg], select=(None if last.op.select is None else [int(x) for x in last.op.select]),
+                        dark=(None if last.op.dark_counts is None else [F(float(x)) for x in last.op.dark_counts]))
+        except pu.CircuitError:
+            impl = "CircuitError"
+        case = dict(B=B)
+        ctx.count("corr:gbs_options", case, len(B) >= 2 and kind != "none")
+        ctx.tally("corr:gbs_options:" + ("CircuitError" if impl == "CircuitError" else "ok"))
+        reqs.append(dict(op="hw.gbsOptions", B=[dict(regs=d["regs"], select=d["select"], dark=None if d["dark"] is None else [F(x) for x in d["dark"]]) for d in B]))
+        pend.append(("GBS.compile options", case, impl))
+    # ---- rectangular_symmetric: the phase push-through on top of rectangular_MZ (public), angles compared on the circle
+    import strawberryfields.decompositions as dec
+    nprng = ctx.nprng(53)
+    for _ in range(ctx.n(30, 250)):
+        N = rng.randint(2, 7)
+        V = hw12.rand_unitary(nprng, N, rng.choice(["haar", "haar", "real", "phased_perm", "block", "identity"]))
+        ti, dg, tl = dec.rectangular_MZ(V)
+        nt, nd, _none = dec.rectangular_symmetric(V)
+        fr_ = lambda x: [Fraction(float(x) / PI).limit_denominator(10 ** 12).numerator, Fraction(float(x) / PI).limit_denominator(10 ** 12).denominator]
+        blk = lambda t: [int(t[0]), int(t[1]), fr_(t[2]), fr_(t[3])]
+        impl = dict(tlist=[[int(t[0]), int(t[1]), float(t[2]) / PI, float(t[3]) / PI] for t in nt], diags=[float(np.angle(z)) / PI for z in nd])
+        case = dict(N=N, n_push=len(tl))
+        ctx.count("corr:symmetric_push", case, len(tl) >= 2)
+        reqs.append(dict(op="hw.symPush", tilist=[blk(t) for t in ti], tlist=[blk(t) for t in tl], diags=[fr_(np.angle(z)) for z in dg]))
+        pend.append(("rectangular_symmetric phase push", case, impl))
+        # property level: the returned blocks and diagonal reproduce the matrix (own product of the documented blocks)
+        def mz(m_, n_, pi_, pe_):
+            c_, s_ = math.cos(pi_ / 2), math.sin(pi_ / 2)
+            M = np.identity(N, dtype=complex)
+            g = 1j * np.exp(1j * pi_ / 2)
+            M[m_, m_], M[m_, n_], M[n_, m_], M[n_, n_] = g * s_ * np.exp(1j * pe_), g * c_, g * c_ * np.exp(1j * pe_), -g * s_
+            return M
+        W = np.identity(N, dtype=complex)
+        for t in nt:
+            W = mz(int(t[0]), int(t[1]), t[2], t[3]) @ W
+        W = np.diag(nd) @ W
+        ctx.oracle_cases += 1
+        if np.max(np.abs(W - V)) > 1e-8:
+            ctx.fail("fn:rectangular_symmetric:reconstruction", f"rectangular_symmetric on a {N}x{N} unitary: diag · product of the Mach-Zehnder blocks differs from "
+                     f"the input by {np.max(np.abs(W - V)):.3g}", dict(kind="symrec", V=enc_U(V)))
     # ---- parameter rules: Compiler.compile (hard-coded layout parameters), validate_gate_parameters (fixed layout values)
     for _ in range(ctx.n(60, 500)):
         def larg():
@@ -2256,6 +2324,18 @@ def canon(pair, model, impl, case):
     if pair == "X compile skeleton":
         m = dict(compiled=[list(x) for x in model["compiled"]], layout=[list(x) for x in model["layout"]], s2perm=True)
         return m, impl
+    if pair == "rectangular_symmetric phase push":
+        circ = lambda x, y: min((x - y) % 2, 2 - (x - y) % 2)
+        mt, md = model["tlist"], model["diags"]
+        if len(mt) != len(impl["tlist"]) or len(md) != len(impl["diags"]):
+            return model, impl
+        for a_, b_ in zip(mt, impl["tlist"]):
+            if a_[0] != b_[0] or a_[1] != b_[1] or circ(a_[2][0] / a_[2][1], b_[2]) > 1e-8 or circ(a_[3][0] / a_[3][1], b_[3]) > 1e-8:
+                return model, impl
+        for a_, b_ in zip(md, impl["diags"]):
+            if circ(a_[0] / a_[1], b_) > 1e-8:
+                return model, impl
+        return None
     if pair == "Borealis.add_loss":
         return model, (None if impl is None else [list(x) for x in impl])
     if pair == "parameter rules":
@@ -2478,6 +2558,17 @@ def replay(ctx, rp):
         tdm1_oracle(ctx, sf, rp, count=False)
     elif rp["kind"] == "none":
         return False
+    elif rp["kind"] == "symrec":
+        import strawberryfields.decompositions as dec
+        V = dec_U(rp["V"]); N = len(V)
+        nt, nd, _ = dec.rectangular_symmetric(V)
+        W = np.identity(N, dtype=complex)
+        for t in nt:
+            pi_, pe_, m_, n_ = t[2], t[3], int(t[0]), int(t[1])
+            M = np.identity(N, dtype=complex); g = 1j * np.exp(1j * pi_ / 2)
+            M[m_, m_], M[m_, n_], M[n_, m_], M[n_, n_] = g * math.sin(pi_ / 2) * np.exp(1j * pe_), g * math.cos(pi_ / 2), g * math.cos(pi_ / 2) * np.exp(1j * pe_), -g * math.sin(pi_ / 2)
+            W = M @ W
+        return bool(np.max(np.abs(np.diag(nd) @ W - V)) > 1e-8)
     elif rp["kind"] == "fn":
         fn_check(ctx, sf, rp["fn"], rp["case"], fixture_ns(sf))
     elif rp["kind"] == "history":
